@@ -401,7 +401,7 @@ def rand_opd(rng, kind, shape, role='any'):
     return o
 
 
-ADVERSARIAL = [0, 0, -8, -800, 8000000, -8000000]
+ADVERSARIAL = [0, 0, 8, -8, 8, -800, 8000000, -8000000]      # hidden: exactly 0, 1, -1, negative, huge
 
 
 def adversarial_hidden(rng, o, p=0.6):
@@ -545,6 +545,8 @@ def gen_cases(rng, tier):
                             continue
                         a = rand_opd(rng, ka, sa, ROLE1.get(op, 'any') if op == 'pow' else 'any')
                         b = rand_opd(rng, kb, sb, ROLE2.get(op, 'any'))
+                        if rng.random() < 0.3 and op != 'pow':
+                            a, b = adversarial_hidden(rng, a), adversarial_hidden(rng, b)
                         if op == 'pow' and sb and KINDS[a['k']][2] == 'int' and KINDS[b['k']][2] == 'float' and False:
                             continue
                         cases.append(mk({'op': op, 'opds': [a, b]}))
@@ -564,7 +566,8 @@ def gen_cases(rng, tier):
     IP_SCALAR = ['iadd', 'isub', 'imul', 'idiv', 'ifloordiv', 'imod', 'ipow']
     IP_OTHER = [('ivadd', 'V3', 'V3'), ('ivsub', 'M2', 'M2'), ('ivadd', 'Q', 'Q'), ('ivmul', 'V3', 'S'), ('ivmul', 'M2', 'Si'),
                 ('ivmul', 'Q', 'B'), ('ivmul', 'V2', 'N'), ('ivmul', 'P', 'A'), ('ivdiv', 'V3', 'S'), ('ivdiv', 'M2', 'S'),
-                ('ivdiv', 'Q', 'N'), ('ivdiv', 'V2', 'Ni'), ('ivdiv', 'V3', 'B'),
+                ('ivdiv', 'Q', 'N'), ('ivdiv', 'V2', 'Ni'), ('ivdiv', 'V3', 'B'), ('ivmod', 'V3', 'S'), ('ivmod', 'P', 'Si'),
+                ('ivmod', 'V2', 'N'), ('ivfloordiv', 'V3', 'S'), ('ivfloordiv', 'P', 'A'),
                 ('imatmul', 'M2', 'M2'), ('imatmul', 'M3', 'M3'), ('imatmul', 'R', 'R'), ('imatmul', 'M3', 'R'),
                 ('imatdiv', 'M2', 'M2'), ('imatdiv', 'M3', 'M3'), ('imatdiv3', 'R', 'R')]
     for _ in range(reps):
@@ -694,6 +697,18 @@ def gen_cases(rng, tier):
                 a = rand_opd(rng, ka, sa)
                 b = make_parallel(rng, a, rand_opd(rng, kb, sb))
                 cases.append(mk({'op': op, 'opds': [a, b]}))
+        # scale-like second operands: (masked) shape-() and array Scalars / numbers whose stored value is EXACTLY 0, 1, -1, 2
+        for ka in ('V3', 'V2', 'P'):
+            for kb in ('S', 'Si', 'N', 'Ni'):
+                for sa, sb in SHAPE_PAIRS:
+                    if KINDS[kb][0] == 'number' and sb:
+                        continue
+                    a, b = rand_opd(rng, ka, sa), rand_opd(rng, kb, sb)
+                    b['v8'] = [rng.choice([0, 8, 8, -8, 16]) for _ in b['v8']]
+                    if not sb and 'mask' in b and rng.random() < 0.5:
+                        b['mask'] = 'T'
+                    for op in ('with_norm2', 'vmul', 'vdiv'):
+                        cases.append(mk({'op': op, 'opds': [a, dict(b)]}))
         # Vector3.spin(pole, angle): vectors along / against the pole, zero vectors, axis poles; the angles are non-zero
         for sa, sb in SHAPE_PAIRS:
             out = K.lead_bcast([sa, sb])
